@@ -156,7 +156,8 @@ Allowed(f, q, c, s) ==
   IN IF cr # {} THEN cr
      ELSE IF cf # {} THEN cf \cup {x \in sr : x.k \in {"serr", "cerr"}}
                           \* ... or be found malformed (8.1.2.6) from the fields decoded so far
-                          \cup (IF f.ty \in {T_HEADERS, T_CONT} /\ ~f.eh /\ ~f.padbad THEN sr \cup {SE(E_PROTO)} ELSE {})
+                          \* ... or be given up on because the receiver bounds what it buffers of an unfinished block (10.5.1)
+                          \cup (IF f.ty \in {T_HEADERS, T_CONT} /\ ~f.eh /\ ~f.padbad THEN sr \cup {SE(E_PROTO), CE(E_CALM)} ELSE {})
      ELSE sr
 
 \* The property's tolerance: a stream error may be answered by a connection error of the same kind.
